@@ -21,9 +21,9 @@ if diff -q /tmp/seed/baseline.txt /tmp/seed/logs/$P-$N.suite.txt >/dev/null; the
 cp $OUT/demo_test.go $WT/$DEST
 (cd $WT && go test "$@" > /tmp/seed/logs/$P-$N.demo-patched.log 2>&1); PATCHED=$?
 rm -f $WT/$DEST
-# overlay mutant
+# mutant patch for ./selftest (applied to the current /repo files at build time)
 lp=$(echo $P | tr A-Z a-z)
-M=/verif/mutants/seed-$lp-$N; rm -rf $M
-for f in $(git -C $WT diff --name-only); do mkdir -p $M/$(dirname $f); cp $WT/$f $M/$f; done
+M=/verif/mutants/seed-$lp-$N.patch
+cp $OUT/patch.diff $M
 git -C $WT checkout -q -- . ; git -C $WT clean -fdq
 echo "$P/$N: suite=$SUITE demo_clean_exit=$CLEAN demo_patched_exit=$PATCHED mutant=$M"
